@@ -5,7 +5,7 @@ import (
 )
 
 func (g *G) returning() ([]Tok, []ast.Expression) {
-	if !g.chance(25, "returning") {
+	if g.F.NoReturning || !g.chance(25, "returning") {
 		return nil, nil
 	}
 	g.use("returning")
@@ -56,7 +56,7 @@ func (g *G) Insert() ([]Tok, *ast.InsertStatement) {
 			g.use("multi_row_values")
 		}
 	}
-	if g.chance(25, "onconflict") {
+	if !g.F.NoOnConflict && g.chance(25, "onconflict") {
 		g.use("on_conflict")
 		oc := &ast.OnConflict{}
 		t = cat(t, g.kw("ON", "CONFLICT"))
@@ -146,7 +146,7 @@ func Statement(g *G) Stmt {
 	case k < 15:
 		var with *ast.WithClause
 		var wt []Tok
-		if g.chance(10, "dmlwith") {
+		if !g.F.NoDMLWith && g.chance(10, "dmlwith") {
 			wt, with = g.withClause()
 		}
 		it, in := g.Insert()
@@ -155,7 +155,7 @@ func Statement(g *G) Stmt {
 	case k < 18:
 		var with *ast.WithClause
 		var wt []Tok
-		if g.chance(10, "dmlwith") {
+		if !g.F.NoDMLWith && g.chance(10, "dmlwith") {
 			wt, with = g.withClause()
 		}
 		ut, un := g.Update()
@@ -164,7 +164,7 @@ func Statement(g *G) Stmt {
 	default:
 		var with *ast.WithClause
 		var wt []Tok
-		if g.chance(10, "dmlwith") {
+		if !g.F.NoDMLWith && g.chance(10, "dmlwith") {
 			wt, with = g.withClause()
 		}
 		dt, dn := g.Delete()
